@@ -226,9 +226,9 @@ def _kwoargs_start(start, _kwoargs, func, *args, **kwargs):
     if not found:
         raise ValueError('{0!r} not found in {1.__name__}{2}'.format(
             start, func, sig))
-    return _PokTranslator(
-        func, kwoargs=kwoarg_names,
-        get=partial(_kwoargs_start, start, _kwoargs))
+    # looked up on an instance, the names worked out here are applied to the
+    # bound function (minus what binding used up), like explicit names are
+    return _PokTranslator(func, kwoargs=kwoarg_names)
 
 @kwoargs('end')
 def posoargs(end=None, *posoarg_names):
@@ -281,9 +281,8 @@ def _posoargs_end(end, _posoargs, func, *args, **kwargs):
     if not found:
         raise ValueError('{0!r} not found in {1.__name__}{2}'.format(
             end, func, sig))
-    return _PokTranslator(
-        func, posoargs=posoarg_names,
-        get=partial(_posoargs_end, end, _posoargs))
+    # (see _kwoargs_start)
+    return _PokTranslator(func, posoargs=posoarg_names)
 
 @kwoargs('exceptions')
 def autokwoargs(func=None, exceptions=()):
